@@ -363,7 +363,7 @@ func Xforms(base *Msg, o XformOpts) []Xform {
 			ps := ps
 			add("multisig-add-cosigner", fmt.Sprintf("same content, aggregate extended by a further member of the account (#%d)", i), false, func(m *Msg) bool {
 				s := m.At([]uint64{3})
-				if s == nil {
+				if s == nil || s.Get(1) == nil || s.Get(2) == nil {
 					return false
 				}
 				s.Get(1).Bytes, s.Get(2).Bytes = ps[0], ps[1]
@@ -457,6 +457,16 @@ func Representatives(xs []Xform) []Xform {
 	return out
 }
 
+// safeApply treats a transformation that cannot cope with the tree an earlier one produced as not applicable.
+func safeApply(x Xform, m *Msg) (ok bool) {
+	defer func() {
+		if recover() != nil {
+			ok = false
+		}
+	}()
+	return x.Apply(m)
+}
+
 // Generate applies every transformation (depth 1) and every ordered pair first x second
 // (depth 2) to the base encoding; results equal to the base or to an earlier result are dropped.
 func Generate(baseRaw []byte, first, second []Xform) (d1, d2 []Variant, err error) {
@@ -470,7 +480,7 @@ func Generate(baseRaw []byte, first, second []Xform) (d1, d2 []Variant, err erro
 	seen := map[string]bool{string(baseRaw): true}
 	for _, x := range first {
 		t := base.Clone()
-		if !x.Apply(t) {
+		if !safeApply(x, t) {
 			continue
 		}
 		raw := t.Encode()
@@ -488,7 +498,7 @@ func Generate(baseRaw []byte, first, second []Xform) (d1, d2 []Variant, err erro
 			_ = i
 			_ = j
 			t := base.Clone()
-			if !x.Apply(t) {
+			if !safeApply(x, t) {
 				break
 			}
 			// re-parse so that the second transformation sees the tree the first one produced
@@ -500,7 +510,7 @@ func Generate(baseRaw []byte, first, second []Xform) (d1, d2 []Variant, err erro
 			} else {
 				copyPads(t, t2)
 			}
-			if !y.Apply(t2) {
+			if !safeApply(y, t2) {
 				continue
 			}
 			raw := t2.Encode()
